@@ -175,5 +175,6 @@ ContextsMore ==
 
 ContextsQuickAll == ContextsQuick \cup ContextsInto \cup ContextsAlone
 
-ValsQuick == {"bool_t", "bool_f", "ident", "str_ident", "str_empty", "int", "negint", "path2", "preds", "str_preds", "star", "call"}
+ValsQuick == {"bool_t", "bool_f", "ident", "str_ident", "str_empty", "int", "negint", "path2", "preds", "str_preds", "star", "call",
+              "hexint", "bigint", "rawstr_ident", "bytestr", "str_2idents", "rawident"}
 =============================================================================
